@@ -4,6 +4,7 @@ package main
 // alphabet executed through the public API, the probes (calls compared with the twin) and the forced GC.
 
 import (
+	"bytes"
 	"context"
 	"errors"
 	"fmt"
@@ -37,6 +38,44 @@ var (
 	bgctx = context.Background()
 )
 
+// Every module has a PRIVATE linear memory (one page, neither exported nor imported) holding a marker pattern: 16
+// words spread over the page (64 bytes) and a call counter. Its functions g / k / c increment the counter (a write)
+// and return  val + 1000*counter + (sum of the 16 marker words XOR the expected sum)  (reads): any change of what the
+// closed-or-not owner's memory holds shows in the value compared with the twin.
+const (
+	memCells   = 16
+	cellStride = 4096
+	cellBase   = 64
+	counterOff = 40000
+)
+
+func markerWord(mod, i int) uint32 { return 0x9E3779B1*uint32(i+1) + 0x01000193*uint32(mod+1) }
+
+func addPrivateMemory(m *wb.Module, mod int) {
+	m.Mem = &wb.Limits{Min: 1, Max: 1, HasMax: true}
+	for i := 0; i < memCells; i++ {
+		w := markerWord(mod, i)
+		m.Datas = append(m.Datas, wb.Data{Offset: wb.CI32(int32(cellBase + i*cellStride)), Bytes: []byte{byte(w), byte(w >> 8), byte(w >> 16), byte(w >> 24)}})
+	}
+}
+
+// valueBody: counter++ ; return val + 1000*counter + (sum(cells) ^ expected)
+func valueBody(mod int, val int32) []byte {
+	a := &wb.Asm{}
+	a.I32Const(0).I32Const(0).Mem(0x28, 2, counterOff).I32Const(1).Op(0x6a).Mem(0x36, 2, counterOff)
+	a.I32Const(0).Mem(0x28, 2, counterOff).I32Const(1000).Op(0x6c).I32Const(val).Op(0x6a)
+	var exp uint32
+	for i := 0; i < memCells; i++ {
+		exp += markerWord(mod, i)
+		a.I32Const(0).Mem(0x28, 2, uint64(cellBase+i*cellStride))
+		if i > 0 {
+			a.Op(0x6a)
+		}
+	}
+	a.I32Const(int32(exp)).Op(0x73).Op(0x6a)
+	return a.B
+}
+
 // slotOrZero emits: table[tbl][0] is null ? 0 : call_indirect table[tbl][0]
 func slotOrZero(a *wb.Asm, t0, tbl uint32) *wb.Asm {
 	return a.I32Const(0).TableGet(tbl).RefIsNull().If(wb.I32).I32Const(0).Else().I32Const(0).CallIndirect(t0, tbl).End()
@@ -48,7 +87,8 @@ func buildA() []byte {
 	t0 := m.Type(nil, i32)
 	m.Tables = []wb.Table{{Elem: wb.FuncRef, Lim: wb.Limits{Min: 2, Max: 2, HasMax: true}}}
 	glob := m.AddGlobal(wb.FuncRef, true, wb.CRefNull(wb.FuncRef))
-	g := m.AddFunc(nil, i32, nil, (&wb.Asm{}).I32Const(valA).B)
+	addPrivateMemory(m, mA)
+	g := m.AddFunc(nil, i32, nil, valueBody(mA, valA))
 	m.ExportFunc("g", g)
 	m.ExportFunc("getref", m.AddFunc(nil, fref, nil, (&wb.Asm{}).RefFunc(g).B))
 	m.ExportFunc("put_t", m.AddFunc(fref, nil, nil, (&wb.Asm{}).I32Const(0).LocalGet(0).TableSet(0).B))
@@ -72,7 +112,8 @@ func buildB() []byte {
 	t0 := m.Type(nil, i32)
 	m.Tables = []wb.Table{{Elem: wb.FuncRef, Lim: wb.Limits{Min: 2, Max: 2, HasMax: true}}} // table index 1 (private)
 	glob := m.AddGlobal(wb.FuncRef, true, wb.CRefNull(wb.FuncRef))
-	k := m.AddFunc(nil, i32, nil, (&wb.Asm{}).I32Const(valB).B)
+	addPrivateMemory(m, mB)
+	k := m.AddFunc(nil, i32, nil, valueBody(mB, valB))
 	m.ExportFunc("k", k)
 	m.ExportFunc("call_g", m.AddFunc(nil, i32, nil, (&wb.Asm{}).Call(impG).B))
 	m.ExportFunc("getref", m.AddFunc(nil, fref, nil, (&wb.Asm{}).RefFunc(k).B))
@@ -99,7 +140,8 @@ func buildC() []byte {
 	hook := m.ImportFunc("env", "hook", i32, nil)
 	t0 := m.Type(nil, i32)
 	m.Tables = []wb.Table{{Elem: wb.FuncRef, Lim: wb.Limits{Min: 2, Max: 2, HasMax: true}}}
-	c := m.AddFunc(nil, i32, nil, (&wb.Asm{}).I32Const(valC).B)
+	addPrivateMemory(m, mC)
+	c := m.AddFunc(nil, i32, nil, valueBody(mC, valC))
 	m.ExportFunc("c", c)
 	m.ExportFunc("getref", m.AddFunc(nil, fref, nil, (&wb.Asm{}).RefFunc(c).B))
 	m.ExportFunc("put_pt", m.AddFunc(fref, nil, nil, (&wb.Asm{}).I32Const(0).LocalGet(0).TableSet(0).B))
@@ -171,18 +213,19 @@ var siteSlots = map[string][]int{
 // ---------------------------------------------------------------- world
 
 type world struct {
-	test    bool // false: twin (closes, drops and collections removed)
-	eng     int
-	cache   wazero.CompilationCache
-	rt      wazero.Runtime
-	comp    [3]wazero.CompiledModule
-	inst    [3]api.Module
-	fresh   []api.Module
-	failC   [nFailKinds]wazero.CompiledModule // kept compiled modules of D (never closed, never dropped)
-	freshN  int
-	pending int // close action the host function performs at its next invocation (-1: none)
-	pendX   int
-	hookRan bool
+	test      bool // false: twin (closes, drops and collections removed)
+	eng       int
+	cache     wazero.CompilationCache
+	rt        wazero.Runtime
+	comp      [3]wazero.CompiledModule
+	inst      [3]api.Module
+	fresh     []api.Module
+	failC     [nFailKinds]wazero.CompiledModule // kept compiled modules of D (never closed, never dropped)
+	sentinels [][]byte                          // blocks of the size of a linear memory, allocated right after each forced collection
+	freshN    int
+	pending   int // close action the host function performs at its next invocation (-1: none)
+	pendX     int
+	hookRan   bool
 }
 
 func rtConfig(eng int) wazero.RuntimeConfig {
@@ -235,7 +278,7 @@ func (w *world) hook() {
 	a := w.pending
 	w.pending = -1
 	w.closeAction(a, w.pendX)
-	forcedGC()
+	w.collect()
 }
 
 func (w *world) closeAction(a, x int) error {
@@ -361,7 +404,7 @@ func (w *world) do(o op) (out string) {
 		w.comp[o.X] = nil
 		return "ok"
 	case kGC:
-		forcedGC()
+		w.collect()
 		return "ok"
 	case kReenter:
 		w.pending, w.pendX, w.hookRan = o.A, o.X, false
@@ -421,6 +464,43 @@ func (w *world) teardown() {
 }
 
 // ---------------------------------------------------------------- forced GC
+
+const sentinelByte = 0xEE
+
+// collect = forced GC, then allocate and fill blocks of the size class of a linear memory, so that a memory buffer
+// freed by this collection is handed out again at once (reuse is certain also without clobberfree): a stale pointer
+// into it now reads 0xEE.. instead of the marker pattern, and a write through it damages a sentinel.
+func (w *world) collect() {
+	forcedGC()
+	if len(w.sentinels) >= 12 {
+		return
+	}
+	for i := 0; i < 3; i++ {
+		w.sentinels = append(w.sentinels, append(make([]byte, 0, 65536), sentinelRef...))
+	}
+}
+
+var sentinelRef = func() []byte {
+	b := make([]byte, 65536)
+	for j := range b {
+		b[j] = sentinelByte
+	}
+	return b
+}()
+
+func (w *world) checkSentinels() string {
+	for i, b := range w.sentinels {
+		if bytes.Equal(b, sentinelRef) {
+			continue
+		}
+		for j, v := range b {
+			if v != sentinelByte {
+				return fmt.Sprintf("sentinel block %d byte %d is %#x: something wrote into a collected and reused allocation", i, j, v)
+			}
+		}
+	}
+	return ""
+}
 
 type barrier struct {
 	p   *int
